@@ -3,8 +3,8 @@
     obs : ((err msg)) on refusal, else
           ((err "") (tree T') (audit (...)) (lookups ((name exists tipnode tipindex) ...))
            (nbtips n) (ntips n) (nalltips n))
-    Verdict priority: oracle clauses about the tree, then the correspondence with the model
-    (structure and name index), then the oracle clause about the name look-ups. *)
+    Verdict priority: oracle clauses about the tree, then the oracle clause about the name look-ups,
+    then the correspondence with the model (structure and name index). *)
 From Coq Require Import String ZArith QArith Bool Arith List.
 From GT Require Import Base.Sexp Base.UTree Base.Codec Spec.Obs Spec.Induced Model.Reroot Model.Prune Judge.Common.
 Import ListNotations.
@@ -128,11 +128,13 @@ Definition judge (c o : sexp) : verdict :=
                    | Some m => Some ("name index differs from the model: " ++ m)
                    | None => None
                    end] in
-            match corr with
-            | Some m => VCorr m
+            (* the look-up clause of the oracle speaks before the correspondence (the table of the
+               model is the tip set of the result, so a wrong table is an oracle failure first) *)
+            match (if in_dom then lookups_against (tip_names g) g ls nb else None) with
+            | Some m => VOracle ("name look-ups do not reflect the new tip set: " ++ m)
             | None =>
-              match (if in_dom then lookups_against (tip_names g) g ls nb else None) with
-              | Some m => VOracle ("name look-ups do not reflect the new tip set: " ++ m)
+              match corr with
+              | Some m => VCorr m
               | None => VOk (negb (utree_eqb t g)) tag
               end
             end
